@@ -1,5 +1,12 @@
 //! pvh — property-based verification harness for proto-vulcan.
+pub mod ast;
+pub mod build;
+pub mod canon;
 pub mod framework;
+pub mod gen;
 pub mod guard;
+pub mod model;
+pub mod oracle;
 pub mod props;
+pub mod run;
 pub mod source;
